@@ -80,6 +80,13 @@ def build():
     P(MG_C, 'MoveGen::isLegal', as_static=True)
     P(MG_C, 'MoveGen::removeIllegal', as_static=True)
     P(MG_C, 'MoveGen::givesCheck', as_static=True)
+    P(MG_H, 'MoveGen::addMovesByMask', as_static=True)
+    P(MG_H, 'MoveGen::addPawnDoubleMovesByMask', as_static=True)
+    P(MG_H, 'MoveGen::addPawnMovesByMask', template=True, tsubst={'wtm': 'true'}, suffix='_w', as_static=True)
+    P(MG_H, 'MoveGen::addPawnMovesByMask', template=True, tsubst={'wtm': 'false'}, suffix='_b', as_static=True)
+    for gen in ('pseudoLegalMoves', 'checkEvasions', 'pseudoLegalCaptures', 'pseudoLegalCapturesAndChecks'):
+        P(MG_C, 'MoveGen::' + gen, nparams=2, template=True, tsubst={'wtm': 'true'}, suffix='_w', as_static=True)
+        P(MG_C, 'MoveGen::' + gen, nparams=2, template=True, tsubst={'wtm': 'false'}, suffix='_b', as_static=True)
     return U
 
 
@@ -92,6 +99,8 @@ SPEC = posunit.SPEC + r'''
 #define ON_BOARD(x, y) ((x) >= 0 && (x) < 8 && (y) >= 0 && (y) < 8)
 #define SQ(x, y) ((y) * 8 + (x))
 #define BITM(s) (1ULL << (s))
+#define SGN_(v) ((v) > 0 ? 1 : (v) < 0 ? -1 : 0)
+#define ABS__(v) ((v) < 0 ? -(v) : (v))
 static U64 spec_king_att(int sq) { U64 m = 0; int x = sq & 7, y = sq >> 3;
     for (int dx = -1; dx <= 1; dx++) for (int dy = -1; dy <= 1; dy++) if ((dx || dy) && ON_BOARD(x + dx, y + dy)) m |= BITM(SQ(x + dx, y + dy)); return m; }
 static U64 spec_knight_att(int sq) { U64 m = 0; int x = sq & 7, y = sq >> 3;
@@ -110,8 +119,6 @@ static U64 spec_between(int a, int b) {   /* squares strictly between a and b on
     int sx = SGN_(dx), sy = SGN_(dy); U64 m = 0;
     for (int k = 1; k < 8; k++) { int xx = ax + k * sx, yy = ay + k * sy; if (xx == bx && yy == by) break; if (!ON_BOARD(xx, yy)) break; m |= BITM(SQ(xx, yy)); }
     return m; }
-#define SGN_(v) ((v) > 0 ? 1 : (v) < 0 ? -1 : 0)
-#define ABS__(v) ((v) < 0 ? -(v) : (v))
 static int spec_direction(int from, int to) {
     int dx = (to & 7) - (from & 7), dy = (to >> 3) - (from >> 3);
     if (dx == 0 && dy == 0) return 0;
@@ -164,6 +171,47 @@ static _Bool same_board(const struct Position* a, const struct Position* b) {
     for (int i = 1; i < 13; i++) if (a->pieceTypeBB_[i] != b->pieceTypeBB_[i]) return 0;
     return a->whiteBB_ == b->whiteBB_ && a->blackBB_ == b->blackBB_ && a->whiteMove == b->whiteMove && a->castleMask == b->castleMask && a->epSquare == b->epSquare; }
 struct Position ghost_pos1;
+/* ghost move monitor (DESIGN section 3): the generators append only through MoveList::addMove; ghost_hits counts how often
+   the arbitrary move ghost_m has been appended */
+struct Move ghost_m; int ghost_hits;
+#define GM_IS(f, t, p) ((f) == ghost_m.from_ && (t) == ghost_m.to_ && (p) == ghost_m.promoteTo_)
+#define GM_TO_IN(mask) (ghost_m.to_ >= 0 && ghost_m.to_ < 64 && ((((U64)(mask)) >> ghost_m.to_) & 1) != 0)
+#define GM_OK (ghost_m.from_ >= 0 && ghost_m.from_ < 64 && ghost_m.to_ >= 0 && ghost_m.to_ < 64 && ghost_m.promoteTo_ >= 0 && ghost_m.promoteTo_ <= 12)
+#define LASTRANK(t) ((t) >= 56 || (t) < 8)
+/* promotion pieces generated for a pawn move to the last rank */
+#define PROMO_OK(white, all, p) ((p) == ((white) ? Piece_WQUEEN : Piece_BQUEEN) || (p) == ((white) ? Piece_WKNIGHT : Piece_BKNIGHT) || ((all) && ((p) == ((white) ? Piece_WROOK : Piece_BROOK) || (p) == ((white) ? Piece_WBISHOP : Piece_BBISHOP))))
+/* squares from which a piece of the side NOT to move gives check to the mover's king */
+static U64 spec_checkers(const struct Position* p) {
+    const int* b = p->squares; _Bool w = p->whiteMove; int k = spec_king_sq(b, w); if (k < 0) return 0;
+    int o = w ? 6 : 0; U64 occ = spec_occ(b), m = 0;
+    U64 kn = spec_knight_att(k), pw = w ? spec_wpawn_att(k) : spec_bpawn_att(k), rr = spec_rook_rays(k, occ), br = spec_bishop_rays(k, occ);
+    for (int s = 0; s < 64; s++) { int pc = b[s]; U64 bit = BITM(s);
+        if (pc == Piece_WKNIGHT + o && (kn & bit)) m |= bit;
+        if (pc == Piece_WPAWN + o && (pw & bit)) m |= bit;
+        if ((pc == Piece_WROOK + o || pc == Piece_WQUEEN + o) && (rr & bit)) m |= bit;
+        if ((pc == Piece_WBISHOP + o || pc == Piece_WQUEEN + o) && (br & bit)) m |= bit; }
+    return m; }
+/* target squares of a non-king move that answers a check: capture the single checker or interpose; none in double check */
+static U64 spec_evasion_targets(const struct Position* p) {
+    U64 c = spec_checkers(p); if (c == 0 || (c & (c - 1)) != 0) return 0;
+    return c | spec_between(spec_king_sq(p->squares, p->whiteMove), spec_lowest(c)); }
+/* candidate evasions: pseudo-legal moves that are king steps, moves to a target square, or en-passant captures
+   (the list still has to pass the legality filter, as in the engine) */
+static _Bool spec_evasion_candidate(const struct Position* p, const struct Move* m) {
+    if (!spec_pseudo_legal(p, m)) return 0;
+    int pc = p->squares[m->from_];
+    if (pc == Piece_WKING || pc == Piece_BKING) return !(m->to_ == m->from_ + 2 || m->to_ == m->from_ - 2);
+    if ((pc == Piece_WPAWN || pc == Piece_BPAWN) && m->to_ == p->epSquare && (m->to_ & 7) != (m->from_ & 7)) return 1;
+    return (spec_evasion_targets(p) & BITM(m->to_)) != 0; }
+/* per piece kind: is ghost_m the move "piece of that kind on ghost_m.from_ goes to ghost_m.to_" as the generator should emit it,
+   given the target filter tg (all ones for the plain generator) */
+static _Bool spec_gm_slider(const struct Position* p, int kind, U64 tg) {
+    if (!GM_OK || ghost_m.promoteTo_ != Piece_EMPTY) return 0;
+    U64 occ = spec_occ(p->squares); U64 own = p->whiteMove ? spec_white(p) : spec_black(p); int f = ghost_m.from_;
+    U64 a = kind == Piece_WQUEEN ? (spec_rook_rays(f, occ) | spec_bishop_rays(f, occ)) : kind == Piece_WROOK ? spec_rook_rays(f, occ)
+          : kind == Piece_WBISHOP ? spec_bishop_rays(f, occ) : kind == Piece_WKNIGHT ? spec_knight_att(f) : spec_king_att(f);
+    return ((a & ~own & tg) & BITM(ghost_m.to_)) != 0; }
+#define DOMAIN_COUNTS(p) (spec_popcount((p)->whiteBB_) <= 16 && spec_popcount((p)->blackBB_) <= 16)
 #pragma CPROVER check pop
 '''
 
@@ -180,9 +228,65 @@ CONTRACTS.update({
     'BitBoard_rookAttacks': {'requires': [_SQOK], 'assigns': [], 'ensures': ['__CPROVER_return_value == spec_rook_rays(sq, occupied)']},
     'BitBoard_bishopAttacks': {'requires': [_SQOK], 'assigns': [], 'ensures': ['__CPROVER_return_value == spec_bishop_rays(sq, occupied)']},
     'BitBoard_getDirection': {'requires': ['0 <= fromS && fromS < 64 && 0 <= toS && toS < 64'], 'assigns': [], 'ensures': ['__CPROVER_return_value == spec_direction(fromS, toS)']},
-    'MoveList_addMove': {'requires': ['__CPROVER_is_fresh(self, sizeof(*self))', '0 <= self->size && self->size < 256'],
-                         'assigns': ['self->size', 'self->buf[self->size]'],
-                         'ensures': ['self->size == __CPROVER_old(self->size) + 1']},
+    # assumed contract of MoveList::addMove (placement new into the int buffer, pinned text): appends exactly the given move.
+    # The capacity (256) is NOT checked here: A-MAXMOVES (no position has more than 256 pseudo-legal moves) is an assumption.
+    'MoveList_addMove': {'requires': ['__CPROVER_is_fresh(self, sizeof(*self))'],
+                         'assigns': ['self->size', 'ghost_hits'],
+                         'ensures': ['(unsigned)self->size == (unsigned)__CPROVER_old(self->size) + 1u',
+                                     'ghost_hits == __CPROVER_old(ghost_hits) + (GM_IS(from, to, promoteTo) ? 1 : 0)']},
+    'MoveGen_addMovesByMask': {
+        'requires': ['__CPROVER_is_fresh(moveList, sizeof(*moveList))', '0 <= sq0 && sq0 < 64', 'GM_OK', '0 <= ghost_hits && ghost_hits < 2000'],
+        'assigns': ['moveList->size', 'ghost_hits'],
+        'ensures': ['ghost_hits == __CPROVER_old(ghost_hits) + ((ghost_m.from_ == sq0 && ghost_m.promoteTo_ == Piece_EMPTY && GM_TO_IN(mask)) ? 1 : 0)'],
+        'ghost_entry': 'U64 ghost_mask0 = mask; int ghost_hits0 = ghost_hits; int ghost_size0 = moveList->size;',
+        'loops': {0: {'assigns': 'mask, moveList->size, ghost_hits',
+                      'invariant': ['(mask & ~ghost_mask0) == 0',
+                                    'ghost_hits == ghost_hits0 + ((ghost_m.from_ == sq0 && ghost_m.promoteTo_ == Piece_EMPTY && GM_TO_IN(ghost_mask0 & ~mask)) ? 1 : 0)'],
+                      }},
+    },
+    'MoveGen_addPawnDoubleMovesByMask': {
+        'requires': ['__CPROVER_is_fresh(moveList, sizeof(*moveList))', 'delta == 16 || delta == -16', 'GM_OK', '0 <= ghost_hits && ghost_hits < 2000',
+                     '(mask & (delta == -16 ? ~BitBoard_maskRow4 : ~BitBoard_maskRow5)) == 0'],
+        'assigns': ['moveList->size', 'ghost_hits'],
+        'ensures': ['ghost_hits == __CPROVER_old(ghost_hits) + ((GM_TO_IN(mask) && ghost_m.from_ == ghost_m.to_ + delta && ghost_m.promoteTo_ == Piece_EMPTY) ? 1 : 0)'],
+        'ghost_entry': 'U64 ghost_mask0 = mask; int ghost_hits0 = ghost_hits; int ghost_size0 = moveList->size;',
+        'loops': {0: {'assigns': 'mask, moveList->size, ghost_hits',
+                      'invariant': ['(mask & ~ghost_mask0) == 0',
+                                    'ghost_hits == ghost_hits0 + ((GM_TO_IN(ghost_mask0 & ~mask) && ghost_m.from_ == ghost_m.to_ + delta && ghost_m.promoteTo_ == Piece_EMPTY) ? 1 : 0)'],
+                      }},
+    },
+    'MoveGen_addPawnMovesByMask_w': {
+        'requires': ['__CPROVER_is_fresh(moveList, sizeof(*moveList))', 'delta >= -9 && delta <= 9', 'GM_OK', '0 <= ghost_hits && ghost_hits < 2000',
+                     # every target square has its origin square on the board
+                     '(delta > 0 ? (mask >> (64 - delta)) == 0 : (mask & ((1ULL << (-delta)) - 1)) == 0)'],
+        'assigns': ['moveList->size', 'ghost_hits'],
+        'ensures': ['ghost_hits == __CPROVER_old(ghost_hits) + ((GM_TO_IN(mask) && ghost_m.from_ == ghost_m.to_ + delta && (LASTRANK(ghost_m.to_) ? PROMO_OK(1, allPromotions, ghost_m.promoteTo_) : ghost_m.promoteTo_ == Piece_EMPTY)) ? 1 : 0)'],
+        'ghost_entry': 'U64 ghost_mask0 = mask; int ghost_hits0 = ghost_hits; int ghost_size0 = moveList->size;',
+        'loops': {0: {'assigns': 'promMask, moveList->size, ghost_hits',
+                      'invariant': ['(promMask & ~(ghost_mask0 & BitBoard_maskRow1Row8)) == 0', 'mask == (ghost_mask0 & ~BitBoard_maskRow1Row8)',
+                                    'ghost_hits == ghost_hits0 + ((GM_TO_IN((ghost_mask0 & BitBoard_maskRow1Row8) & ~promMask) && ghost_m.from_ == ghost_m.to_ + delta && PROMO_OK(1, allPromotions, ghost_m.promoteTo_)) ? 1 : 0)'],
+                      },
+                  1: {'assigns': 'mask, moveList->size, ghost_hits',
+                      'invariant': ['(mask & ~(ghost_mask0 & ~BitBoard_maskRow1Row8)) == 0',
+                                    'ghost_hits == ghost_hits0 + ((GM_TO_IN(ghost_mask0 & BitBoard_maskRow1Row8) && ghost_m.from_ == ghost_m.to_ + delta && PROMO_OK(1, allPromotions, ghost_m.promoteTo_)) ? 1 : 0) + ((GM_TO_IN((ghost_mask0 & ~BitBoard_maskRow1Row8) & ~mask) && ghost_m.from_ == ghost_m.to_ + delta && ghost_m.promoteTo_ == Piece_EMPTY) ? 1 : 0)'],
+                      }},
+    },
+    'MoveGen_addPawnMovesByMask_b': {
+        'requires': ['__CPROVER_is_fresh(moveList, sizeof(*moveList))', 'delta >= -9 && delta <= 9', 'GM_OK', '0 <= ghost_hits && ghost_hits < 2000',
+                     # every target square has its origin square on the board
+                     '(delta > 0 ? (mask >> (64 - delta)) == 0 : (mask & ((1ULL << (-delta)) - 1)) == 0)'],
+        'assigns': ['moveList->size', 'ghost_hits'],
+        'ensures': ['ghost_hits == __CPROVER_old(ghost_hits) + ((GM_TO_IN(mask) && ghost_m.from_ == ghost_m.to_ + delta && (LASTRANK(ghost_m.to_) ? PROMO_OK(0, allPromotions, ghost_m.promoteTo_) : ghost_m.promoteTo_ == Piece_EMPTY)) ? 1 : 0)'],
+        'ghost_entry': 'U64 ghost_mask0 = mask; int ghost_hits0 = ghost_hits; int ghost_size0 = moveList->size;',
+        'loops': {0: {'assigns': 'promMask, moveList->size, ghost_hits',
+                      'invariant': ['(promMask & ~(ghost_mask0 & BitBoard_maskRow1Row8)) == 0', 'mask == (ghost_mask0 & ~BitBoard_maskRow1Row8)',
+                                    'ghost_hits == ghost_hits0 + ((GM_TO_IN((ghost_mask0 & BitBoard_maskRow1Row8) & ~promMask) && ghost_m.from_ == ghost_m.to_ + delta && PROMO_OK(0, allPromotions, ghost_m.promoteTo_)) ? 1 : 0)'],
+                      },
+                  1: {'assigns': 'mask, moveList->size, ghost_hits',
+                      'invariant': ['(mask & ~(ghost_mask0 & ~BitBoard_maskRow1Row8)) == 0',
+                                    'ghost_hits == ghost_hits0 + ((GM_TO_IN(ghost_mask0 & BitBoard_maskRow1Row8) && ghost_m.from_ == ghost_m.to_ + delta && PROMO_OK(0, allPromotions, ghost_m.promoteTo_)) ? 1 : 0) + ((GM_TO_IN((ghost_mask0 & ~BitBoard_maskRow1Row8) & ~mask) && ghost_m.from_ == ghost_m.to_ + delta && ghost_m.promoteTo_ == Piece_EMPTY) ? 1 : 0)'],
+                      }},
+    },
     'MoveGen_sqAttacked_w': {'requires': [_POS, 'wf_bb(pos)', _SQOK], 'assigns': [],
                              'ensures': ['__CPROVER_return_value == spec_attacked_occ(pos->squares, sq, occupied, 0)']},
     'MoveGen_sqAttacked_b': {'requires': [_POS, 'wf_bb(pos)', _SQOK], 'assigns': [],
@@ -200,6 +304,39 @@ CONTRACTS.update({
                         'ensures': ['__CPROVER_return_value == spec_leaves_king_safe(&ghost_pos1, m)', 'same_board(pos, &ghost_pos1)']},
 })
 
+
+def _evasion_contract(white):
+    me = 1 if white else 0
+    Q, R, B, N = (('Piece_WQUEEN', 'Piece_WROOK', 'Piece_WBISHOP', 'Piece_WKNIGHT') if white else ('Piece_BQUEEN', 'Piece_BROOK', 'Piece_BBISHOP', 'Piece_BKNIGHT'))
+    def acc(upto):
+        # hits contributed by the piece loops already finished (in code order: queen, rook, bishop, king, knight)
+        t = 'ghost_hits0'
+        if upto >= 1: t += ' + ((((ghost_Q0 >> ghost_m.from_) & 1) && ghost_tQ) ? 1 : 0)'
+        if upto >= 2: t += ' + ((((ghost_R0 >> ghost_m.from_) & 1) && ghost_tR) ? 1 : 0)'
+        if upto >= 3: t += ' + ((((ghost_B0 >> ghost_m.from_) & 1) && ghost_tB) ? 1 : 0)'
+        if upto >= 4: t += ' + ((ghost_m.from_ == ghost_ksq && ghost_tK) ? 1 : 0)'
+        if upto >= 5: t += ' + ((((ghost_N0 >> ghost_m.from_) & 1) && ghost_tN) ? 1 : 0)'
+        return t
+    def loop(var, set0, flag, upto):
+        return {'assigns': '%s, moveList->size, ghost_hits' % var,
+                'invariant': ['(%s & ~%s) == 0' % (var, set0),
+                              'ghost_hits == %s + (((((%s & ~%s) >> ghost_m.from_) & 1) && %s) ? 1 : 0)' % (acc(upto), set0, var, flag)]}
+    return {
+        'requires': ['__CPROVER_is_fresh(pos, sizeof(*pos))', '__CPROVER_is_fresh(moveList, sizeof(*moveList))', 'wf_bb(pos)', 'FLAGS_OK(pos)', 'men_ok(pos)', 'wf_rights(pos)',
+                     'pos->whiteMove == %d' % me, 'spec_in_check(pos)', 'GM_OK', '0 <= ghost_hits && ghost_hits < 1000'],
+        'assigns': ['moveList->size', 'ghost_hits'],
+        # the generated list is exactly the set of evasion candidates, each once
+        'ensures': ['ghost_hits == __CPROVER_old(ghost_hits) + (spec_evasion_candidate(pos, &ghost_m) ? 1 : 0)'],
+        'ghost_entry': ('int ghost_hits0 = ghost_hits; U64 ghost_tg = spec_evasion_targets(pos); int ghost_ksq = spec_king_sq(pos->squares, %d);'
+                        ' U64 ghost_Q0 = pos->pieceTypeBB_[%s], ghost_R0 = pos->pieceTypeBB_[%s], ghost_B0 = pos->pieceTypeBB_[%s], ghost_N0 = pos->pieceTypeBB_[%s];'
+                        ' _Bool ghost_tQ = spec_gm_slider(pos, Piece_WQUEEN, ghost_tg), ghost_tR = spec_gm_slider(pos, Piece_WROOK, ghost_tg), ghost_tB = spec_gm_slider(pos, Piece_WBISHOP, ghost_tg),'
+                        ' ghost_tN = spec_gm_slider(pos, Piece_WKNIGHT, ghost_tg), ghost_tK = spec_gm_slider(pos, Piece_WKING, ~0ULL);') % (me, Q, R, B, N),
+        'loops': {0: loop('squares', 'ghost_Q0', 'ghost_tQ', 0), 1: loop('squares', 'ghost_R0', 'ghost_tR', 1), 2: loop('squares', 'ghost_B0', 'ghost_tB', 2),
+                  3: loop('knights', 'ghost_N0', 'ghost_tN', 4)},
+    }
+CONTRACTS['MoveGen_checkEvasions_w'] = _evasion_contract(True)
+CONTRACTS['MoveGen_checkEvasions_b'] = _evasion_contract(False)
+
 HARNESS = posunit.HARNESS.split('void h_setPiece')[0] + r'''
 void h_sqAttacked_w(void) { struct Position* p; int sq; U64 occ; havoc_tables(); MoveGen_sqAttacked_w(p, sq, occ); CANARY_POINT; }
 void h_sqAttacked_b(void) { struct Position* p; int sq; U64 occ; havoc_tables(); MoveGen_sqAttacked_b(p, sq, occ); CANARY_POINT; }
@@ -208,9 +345,20 @@ void h_sqAttacked2(void) { struct Position* p; int sq; havoc_tables(); MoveGen_s
 void h_inCheck(void) { struct Position* p; havoc_tables(); MoveGen_inCheck(p); CANARY_POINT; }
 void h_isLegal(void) { struct Position* p; struct Move* m; _Bool ic = (nondet_int() != 0); havoc_tables(); __CPROVER_havoc_object(&ghost_pos1); MoveGen_isLegal(p, m, ic); CANARY_POINT; }
 '''
+HARNESS += r'''
+static void havoc_gm(void) { __CPROVER_havoc_object(&ghost_m); ghost_hits = nondet_int(); }
+void h_addMovesByMask(void) { struct MoveList* ml; int sq0; U64 mask; havoc_tables(); havoc_gm(); MoveGen_addMovesByMask(ml, sq0, mask); CANARY_POINT; }
+void h_addPawnDouble(void) { struct MoveList* ml; int d; U64 mask; havoc_tables(); havoc_gm(); MoveGen_addPawnDoubleMovesByMask(ml, mask, d); CANARY_POINT; }
+void h_addPawnMoves_w(void) { struct MoveList* ml; int d; U64 mask; _Bool all = (nondet_int() != 0); havoc_tables(); havoc_gm(); MoveGen_addPawnMovesByMask_w(ml, mask, d, all); CANARY_POINT; }
+void h_addPawnMoves_b(void) { struct MoveList* ml; int d; U64 mask; _Bool all = (nondet_int() != 0); havoc_tables(); havoc_gm(); MoveGen_addPawnMovesByMask_b(ml, mask, d, all); CANARY_POINT; }
+'''
+HARNESS += r'''
+void h_checkEvasions_w(void) { struct Position* p; struct MoveList* ml; havoc_tables(); havoc_gm(); MoveGen_checkEvasions_w(p, ml); CANARY_POINT; }
+void h_checkEvasions_b(void) { struct Position* p; struct MoveList* ml; havoc_tables(); havoc_gm(); MoveGen_checkEvasions_b(p, ml); CANARY_POINT; }
+'''
 UNWIND = dict(posunit.UNWIND)
 UNWIND.update({'spec_king_att': 4, 'spec_knight_att': 6, 'spec_ray': 9, 'spec_between': 9, 'spec_occ': 65, 'spec_attacked_occ': 65, 'spec_king_sq': 65,
-               'spec_board_after': 65, 'same_board': 65})
+               'spec_board_after': 65, 'same_board': 65, 'spec_checkers': 65})
 _ATT = ('BitBoard_kingAttacks', 'BitBoard_knightAttacks', 'BitBoard_wPawnAttacks', 'BitBoard_bPawnAttacks', 'BitBoard_rookAttacks', 'BitBoard_bishopAttacks')
 GROUPS = [
     Group('sqAttacked_w', 'h_sqAttacked_w', enforce='MoveGen_sqAttacked_w', replace=_ATT, min_props=5, timeout=1800),
@@ -219,6 +367,14 @@ GROUPS = [
     Group('sqAttacked2', 'h_sqAttacked2', enforce='MoveGen_sqAttacked2', replace=('MoveGen_sqAttacked3',), min_props=3),
     Group('inCheck', 'h_inCheck', enforce='MoveGen_inCheck', replace=('MoveGen_sqAttacked2', 'BitBoard_firstSquare'), min_props=3),
 ]
+for _n, _h, _f in (('addMovesByMask', 'h_addMovesByMask', 'MoveGen_addMovesByMask'), ('addPawnDoubleMovesByMask', 'h_addPawnDouble', 'MoveGen_addPawnDoubleMovesByMask'),
+                   ('addPawnMovesByMask_w', 'h_addPawnMoves_w', 'MoveGen_addPawnMovesByMask_w'), ('addPawnMovesByMask_b', 'h_addPawnMoves_b', 'MoveGen_addPawnMovesByMask_b')):
+    GROUPS.append(Group(_n, _h, enforce=_f, replace=('MoveList_addMove', 'BitBoard_extractSquare'), loop_contracts=True, min_props=10, expect_loop_props=1, timeout=1800))
+_HELP = ('MoveGen_addMovesByMask', 'MoveGen_addPawnDoubleMovesByMask', 'MoveGen_addPawnMovesByMask_w', 'MoveGen_addPawnMovesByMask_b', 'MoveList_addMove',
+         'BitBoard_extractSquare', 'BitBoard_firstSquare', 'BitBoard_squaresBetween')
+for _sfx in ('_w', '_b'):
+    GROUPS.append(Group('checkEvasions' + _sfx, 'h_checkEvasions' + _sfx, enforce='MoveGen_checkEvasions' + _sfx, replace=_ATT + _HELP, loop_contracts=True,
+                        min_props=20, expect_loop_props=4, timeout=3000))
 GROUPS.append(Group('isLegal', 'h_isLegal', enforce='MoveGen_isLegal',
                     replace=_ATT + ('MoveGen_inCheck', 'MoveGen_sqAttacked3', 'BitBoard_getDirection', 'BitBoard_firstSquare'), min_props=10, timeout=3000))
 PROPERTIES = {'C01': [g.name for g in GROUPS]}
